@@ -296,6 +296,11 @@ class Result:
                 print("VIOLATION property=%s replay=%s" % (self.pid, path))
                 print("  what: %s" % (v["what"][:1500],))
             return 1
+        if len(self.inconclusive) > max(20, self.evaluations // 20):
+            # three-valued verdicts: when this much of the exploration could not be judged, "held on what was observed" would mislead
+            print("BROKEN property=%s %d of %d evaluations were inconclusive: the monitors could not observe enough to give a verdict"
+                  % (self.pid, len(self.inconclusive), self.evaluations))
+            return 2
         if self.evaluations == 0 or len(self.nontrivial) + self.nontrivial_counted < 2:
             print("BROKEN property=%s the monitors observed nothing (evaluations=%d, nontrivial=%d)"
                   % (self.pid, self.evaluations, len(self.nontrivial)))
